@@ -186,6 +186,51 @@ pub struct Cx<'src, I: HInput<'src>, E: HErr<'src, I>> {
     pub base: usize,
 }
 
+thread_local! {
+    /// which `Seq` / `OrderedSeq` implementation carries the tokens of `just` / `one_of` / `none_of` (0 = `Vec<char>`)
+    pub static SEQ_FL: std::cell::Cell<u8> = const { std::cell::Cell::new(0) };
+}
+
+fn contiguous(cs: &[char]) -> bool {
+    !cs.is_empty() && cs.windows(2).all(|w| w[1] as u32 == w[0] as u32 + 1) && (cs[cs.len() - 1] as u32) < 0xD7FF
+}
+
+/// run `$body` with `$s` bound to the tokens in the flavour selected by `SEQ_FL` (ordered flavours only: usable for `just`)
+macro_rules! seq_ordered {
+    ($cs:expr, $s:ident => $body:expr, else $fall:expr) => {{
+        let cs: Vec<char> = $cs;
+        let fl = SEQ_FL.with(|f| f.get());
+        match (fl, cs.len()) {
+            (1, _) => { let $s: String = cs.iter().collect(); $body }
+            (2, _) => { let $s: &'static str = Box::leak(cs.iter().collect::<String>().into_boxed_str()); $body }
+            (3, 1) => { let $s: [char; 1] = [cs[0]]; $body }
+            (3, 2) => { let $s: [char; 2] = [cs[0], cs[1]]; $body }
+            (3, 3) => { let $s: [char; 3] = [cs[0], cs[1], cs[2]]; $body }
+            (4, _) => { let $s: &'static [char] = Box::leak(cs.clone().into_boxed_slice()); $body }
+            (5, _) if contiguous(&cs) => { let $s = cs[0]..=cs[cs.len() - 1]; $body }
+            (6, _) if contiguous(&cs) => { let $s = cs[0]..char::from_u32(cs[cs.len() - 1] as u32 + 1).unwrap(); $body }
+            (7, 1) => { let $s: char = cs[0]; $body }
+            (8, 1) => { let $s: &'static char = Box::leak(Box::new(cs[0])); $body }
+            (9, 2) => { let $s: &'static [char; 2] = Box::leak(Box::new([cs[0], cs[1]])); $body }
+            _ => { let $s = cs; $fall }
+        }
+    }};
+}
+
+/// the same plus the unordered containers (`one_of` / `none_of`)
+macro_rules! seq_any {
+    ($cs:expr, $s:ident => $body:expr) => {{
+        let cs0: Vec<char> = $cs;
+        let fl = SEQ_FL.with(|f| f.get());
+        match fl {
+            10 => { let $s: std::collections::HashSet<char> = cs0.iter().copied().collect(); $body }
+            11 => { let $s: std::collections::BTreeSet<char> = cs0.iter().copied().collect(); $body }
+            12 => { let $s: std::collections::LinkedList<char> = cs0.iter().copied().collect(); $body }
+            _ => seq_ordered!(cs0, $s => $body, else $body),
+        }
+    }};
+}
+
 fn chars(ts: &[u32]) -> Vec<char> {
     ts.iter().map(|&t| char::from_u32(t).unwrap_or('\u{fffd}')).collect()
 }
@@ -259,18 +304,38 @@ fn collect_out(k: &Coll, items: Vec<Val>) -> Val {
     }
 }
 
+thread_local! {
+    /// `<id>~c`: every combinator value the interpreter builds is cloned (through its own `Clone` impl) and the clone is
+    /// what gets boxed and run — the original is dropped first
+    pub static CLONE_FL: std::cell::Cell<bool> = const { std::cell::Cell::new(false) };
+}
+
+pub trait Bx<'src, I: HInput<'src>, E: HErr<'src, I>>: Parser<'src, I, Val, Ex<E>> + Clone + Sized + 'src {
+    fn bx(self) -> BP<'src, I, E> {
+        if CLONE_FL.with(|c| c.get()) {
+            let c = self.clone();
+            drop(self);
+            c.boxed()
+        } else {
+            self.boxed()
+        }
+    }
+}
+impl<'src, I: HInput<'src>, E: HErr<'src, I>, P: Parser<'src, I, Val, Ex<E>> + Clone + Sized + 'src> Bx<'src, I, E> for P {}
+
 pub fn build<'src, I: HInput<'src>, E: HErr<'src, I>>(g: &G, cx: &Cx<'src, I, E>) -> BP<'src, I, E> {
     let b = |g: &G| build(g, cx);
     match g {
-        G::End => end().to(Val::Unit).boxed(),
-        G::Empty => empty().to(Val::Unit).boxed(),
-        G::Any => any().map(|c: char| Val::Tok(c as u32)).boxed(),
+        G::End => end().to(Val::Unit).bx(),
+        G::Empty => empty().to(Val::Unit).bx(),
+        G::Any => any().map(|c: char| Val::Tok(c as u32)).bx(),
         G::Just(ts) => {
             let ts2 = ts.clone();
-            just(chars(ts)).map(move |_| Val::Toks(ts2.clone())).boxed()
+            seq_ordered!(chars(ts), s => just(s).map(move |_| Val::Toks(ts2.clone())).bx(),
+                else just(s).map(move |_| Val::Toks(ts2.clone())).bx())
         }
-        G::OneOf(ts) => one_of(chars(ts)).map(|c: char| Val::Tok(c as u32)).boxed(),
-        G::NoneOf(ts) => none_of(chars(ts)).map(|c: char| Val::Tok(c as u32)).boxed(),
+        G::OneOf(ts) => seq_any!(chars(ts), s => one_of(s).map(|c: char| Val::Tok(c as u32)).bx()),
+        G::NoneOf(ts) => seq_any!(chars(ts), s => none_of(s).map(|c: char| Val::Tok(c as u32)).bx()),
         G::Select(ts) => {
             let cs = chars(ts);
             select(move |c: char, _| {
@@ -280,7 +345,7 @@ pub fn build<'src, I: HInput<'src>, E: HErr<'src, I>>(g: &G, cx: &Cx<'src, I, E>
                     None
                 }
             })
-            .boxed()
+            .bx()
         }
         G::AnyRef => I::any_ref_p::<E>(),
         G::SelectRef(ts) => I::select_ref_p::<E>(chars(ts)),
@@ -293,7 +358,7 @@ pub fn build<'src, I: HInput<'src>, E: HErr<'src, I>>(g: &G, cx: &Cx<'src, I, E>
                     None => Err(E::user(inp.span_since(&before), msg)),
                 }
             })
-            .boxed()
+            .bx()
         }
         G::CTake2(msg) => {
             let msg = *msg;
@@ -303,36 +368,36 @@ pub fn build<'src, I: HInput<'src>, E: HErr<'src, I>>(g: &G, cx: &Cx<'src, I, E>
                 let _ = inp.next();
                 Err(E::user(inp.span_since(&before), msg))
             })
-            .boxed()
+            .bx()
         }
-        G::CNothing => custom(|_inp| Ok(Val::Unit)).boxed(),
+        G::CNothing => custom(|_inp| Ok(Val::Unit)).bx(),
         G::CFail(msg) => {
             let msg = *msg;
             custom(move |inp| {
                 let before = inp.cursor();
                 Err(E::user(inp.span_since(&before), msg))
             })
-            .boxed()
+            .bx()
         }
-        G::Todo => todo().boxed(),
-        G::Then(a, c) => b(a).then(b(c)).map(|(x, y)| Val::pair(x, y)).boxed(),
-        G::IgnoreThen(a, c) => b(a).ignore_then(b(c)).boxed(),
-        G::ThenIgnore(a, c) => b(a).then_ignore(b(c)).boxed(),
-        G::Delim(a, l, r) => b(a).delimited_by(b(l), b(r)).boxed(),
-        G::Padded(a, p) => b(a).padded_by(b(p)).boxed(),
+        G::Todo => todo().bx(),
+        G::Then(a, c) => b(a).then(b(c)).map(|(x, y)| Val::pair(x, y)).bx(),
+        G::IgnoreThen(a, c) => b(a).ignore_then(b(c)).bx(),
+        G::ThenIgnore(a, c) => b(a).then_ignore(b(c)).bx(),
+        G::Delim(a, l, r) => b(a).delimited_by(b(l), b(r)).bx(),
+        G::Padded(a, p) => b(a).padded_by(b(p)).bx(),
         G::Group(gs) => {
             let ps: Vec<_> = gs.iter().map(|g| b(g)).collect();
             match ps.len() {
-                1 => group((ps[0].clone(),)).map(|(a,)| Val::list([a])).boxed(),
+                1 => group((ps[0].clone(),)).map(|(a,)| Val::list([a])).bx(),
                 2 => group((ps[0].clone(), ps[1].clone()))
                     .map(|(a, b)| Val::list([a, b]))
-                    .boxed(),
+                    .bx(),
                 3 => group((ps[0].clone(), ps[1].clone(), ps[2].clone()))
                     .map(|(a, b, c)| Val::list([a, b, c]))
-                    .boxed(),
+                    .bx(),
                 4 => group((ps[0].clone(), ps[1].clone(), ps[2].clone(), ps[3].clone()))
                     .map(|(a, b, c, d)| Val::list([a, b, c, d]))
-                    .boxed(),
+                    .bx(),
                 n => panic!("harness: group arity {n} unsupported"),
             }
         }
@@ -345,7 +410,7 @@ pub fn build<'src, I: HInput<'src>, E: HErr<'src, I>>(g: &G, cx: &Cx<'src, I, E>
                     Ok(a) => a,
                     Err(_) => unreachable!(),
                 };
-                group(a).map(|vs: [Val; N]| Val::list(vs)).boxed()
+                group(a).map(|vs: [Val; N]| Val::list(vs)).bx()
             }
             match ps.len() {
                 0 => arr::<I, E, 0>(ps),
@@ -356,20 +421,33 @@ pub fn build<'src, I: HInput<'src>, E: HErr<'src, I>>(g: &G, cx: &Cx<'src, I, E>
                 n => panic!("harness: group array arity {n} unsupported"),
             }
         }
-        G::Or(a, c) => b(a).or(b(c)).boxed(),
+        G::Or(a, c) => b(a).or(b(c)).bx(),
         G::ChoiceT(gs) => {
             let ps: Vec<_> = gs.iter().map(|g| b(g)).collect();
             match ps.len() {
-                1 => choice((ps[0].clone(),)).boxed(),
-                2 => choice((ps[0].clone(), ps[1].clone())).boxed(),
-                3 => choice((ps[0].clone(), ps[1].clone(), ps[2].clone())).boxed(),
-                4 => choice((ps[0].clone(), ps[1].clone(), ps[2].clone(), ps[3].clone())).boxed(),
+                1 => choice((ps[0].clone(),)).bx(),
+                2 => choice((ps[0].clone(), ps[1].clone())).bx(),
+                3 => choice((ps[0].clone(), ps[1].clone(), ps[2].clone())).bx(),
+                4 => choice((ps[0].clone(), ps[1].clone(), ps[2].clone(), ps[3].clone())).bx(),
                 n => panic!("harness: choice tuple arity {n} unsupported"),
             }
         }
         G::ChoiceS(gs) => {
             let ps: Vec<_> = gs.iter().map(|g| b(g)).collect();
-            choice(ps).boxed()
+            // `~s3`: the array flavour `Choice<[A; N]>` instead of `Choice<Vec<A>>`
+            fn arr<'src, I: HInput<'src>, E: HErr<'src, I>, const N: usize>(ps: Vec<BP<'src, I, E>>) -> BP<'src, I, E> {
+                let a: [BP<'src, I, E>; N] = match ps.try_into() {
+                    Ok(a) => a,
+                    Err(_) => unreachable!(),
+                };
+                choice(a).bx()
+            }
+            match (SEQ_FL.with(|f| f.get()), ps.len()) {
+                (3, 1) => arr::<I, E, 1>(ps),
+                (3, 2) => arr::<I, E, 2>(ps),
+                (3, 3) => arr::<I, E, 3>(ps),
+                _ => choice(ps).bx(),
+            }
         }
         G::OrNot(a) => b(a)
             .or_not()
@@ -377,19 +455,19 @@ pub fn build<'src, I: HInput<'src>, E: HErr<'src, I>>(g: &G, cx: &Cx<'src, I, E>
                 Some(v) => Val::Some(Box::new(v)),
                 None => Val::None,
             })
-            .boxed(),
-        G::Not(a) => b(a).not().to(Val::Unit).boxed(),
-        G::AndIs(a, c) => b(a).and_is(b(c)).boxed(),
-        G::Rewind(a) => b(a).rewind().boxed(),
+            .bx(),
+        G::Not(a) => b(a).not().to(Val::Unit).bx(),
+        G::AndIs(a, c) => b(a).and_is(b(c)).bx(),
+        G::Rewind(a) => b(a).rewind().bx(),
         G::Map(f, a) => {
             let f = f.clone();
-            b(a).map(move |v| eval_map(&f, v)).boxed()
+            b(a).map(move |v| eval_map(&f, v)).bx()
         }
-        G::To(v, a) => b(a).to(Val::from_v(v)).boxed(),
-        G::Ignored(a) => b(a).ignored().to(Val::Unit).boxed(),
+        G::To(v, a) => b(a).to(Val::from_v(v)).bx(),
+        G::Ignored(a) => b(a).ignored().to(Val::Unit).bx(),
         G::Filter(p, a) => {
             let p = p.clone();
-            b(a).filter(move |v| eval_pred(&p, v)).boxed()
+            b(a).filter(move |v| eval_pred(&p, v)).bx()
         }
         G::TryMap(p, msg, tag, a) => {
             let (p, msg, tag) = (p.clone(), *msg, *tag);
@@ -400,7 +478,7 @@ pub fn build<'src, I: HInput<'src>, E: HErr<'src, I>>(g: &G, cx: &Cx<'src, I, E>
                     Ok(Val::tag(tag, v))
                 }
             })
-            .boxed()
+            .bx()
         }
         G::TryMapW(p, msg, tag, a) => {
             let (p, msg, tag) = (p.clone(), *msg, *tag);
@@ -411,13 +489,13 @@ pub fn build<'src, I: HInput<'src>, E: HErr<'src, I>>(g: &G, cx: &Cx<'src, I, E>
                     Ok(Val::tag(tag, v))
                 }
             })
-            .boxed()
+            .bx()
         }
-        G::ToSpan(a) => b(a).to_span().map(Val::span).boxed(),
+        G::ToSpan(a) => b(a).to_span().map(Val::span).bx(),
         G::ToSlice(a) => I::to_slice(b(a), cx.base),
-        G::MwSpan(a) => b(a).map_with(|v, e| Val::pair(v, Val::span(e.span()))).boxed(),
-        G::MwState(a) => b(a).map_with(|v, e| Val::pair(v, e.state().val())).boxed(),
-        G::MwCtx(a) => b(a).map_with(|v, e| Val::pair(v, e.ctx().clone())).boxed(),
+        G::MwSpan(a) => b(a).map_with(|v, e| Val::pair(v, Val::span(e.span()))).bx(),
+        G::MwState(a) => b(a).map_with(|v, e| Val::pair(v, e.state().val())).bx(),
+        G::MwCtx(a) => b(a).map_with(|v, e| Val::pair(v, e.ctx().clone())).bx(),
         G::Validate(p, msg, count, a) => {
             let (p, msg, count) = (p.clone(), *msg, *count);
             b(a).validate(move |v, e, emitter| {
@@ -428,32 +506,34 @@ pub fn build<'src, I: HInput<'src>, E: HErr<'src, I>>(g: &G, cx: &Cx<'src, I, E>
                 }
                 v
             })
-            .boxed()
+            .bx()
         }
         G::Collect(k, it) => with_iter(it, cx, false, CollectK { k: k.clone() }),
         G::CollectX(n, it) => with_iter(it, cx, false, CollectXK { n: *n }),
+        G::CollectIw(a, it) => with_iter(it, cx, false, CtxIterK { a: b(a), then: false }),
+        G::CollectTw(a, it) => with_iter(it, cx, false, CtxIterK { a: b(a), then: true }),
         G::Foldl(f, a, it) => with_iter(it, cx, false, FoldlK { f: f.clone(), a: b(a) }),
         G::Foldr(f, it, c) => with_iter(it, cx, false, FoldrK { f: f.clone(), b: b(c) }),
         G::FoldlW(a, it) => with_iter(it, cx, false, FoldlWK { a: b(a) }),
         G::FoldrW(it, c) => with_iter(it, cx, false, FoldrWK { b: b(c) }),
         G::IterP(it) => build_plain(it, cx),
-        G::RecVia(a, r) => b(a).recover_with(via_parser(b(r))).boxed(),
+        G::RecVia(a, r) => b(a).recover_with(via_parser(b(r))).bx(),
         G::RecSkip(a, s, u, fb) => {
             let fb = Val::from_v(fb);
             b(a).recover_with(skip_until(b(s).ignored(), b(u).ignored(), move || fb.clone()))
-                .boxed()
+                .bx()
         }
         G::RecRetry(a, s, u) => b(a)
             .recover_with(skip_then_retry_until(b(s).ignored(), b(u).ignored()))
-            .boxed(),
+            .bx(),
         G::RecNd(a, s, e, others) => {
             let ch = |t: u32| char::from_u32(t).unwrap_or('\u{fffd}');
             let fb = |sp: Sp| Val::span(sp);
             let (s, e) = (ch(*s), ch(*e));
             let p = b(a);
             match others.len() / 2 {
-                0 => p.recover_with(via_parser(nested_delimiters(s, e, [], fb))).boxed(),
-                1 => p.recover_with(via_parser(nested_delimiters(s, e, [(ch(others[0]), ch(others[1]))], fb))).boxed(),
+                0 => p.recover_with(via_parser(nested_delimiters(s, e, [], fb))).bx(),
+                1 => p.recover_with(via_parser(nested_delimiters(s, e, [(ch(others[0]), ch(others[1]))], fb))).bx(),
                 _ => p
                     .recover_with(via_parser(nested_delimiters(
                         s,
@@ -461,27 +541,27 @@ pub fn build<'src, I: HInput<'src>, E: HErr<'src, I>>(g: &G, cx: &Cx<'src, I, E>
                         [(ch(others[0]), ch(others[1])), (ch(others[2]), ch(others[3]))],
                         fb,
                     )))
-                    .boxed(),
+                    .bx(),
             }
         }
         G::Label(l, as_ctx, a) => {
             let p = b(a).labelled(format!("L{l}"));
             if *as_ctx {
-                p.as_context().boxed()
+                p.as_context().bx()
             } else {
-                p.boxed()
+                p.bx()
             }
         }
         G::MapErr(k, a) => {
             let k = *k;
-            b(a).map_err(move |e: E| e.relabel(k)).boxed()
+            b(a).map_err(move |e: E| e.relabel(k)).bx()
         }
-        G::WithCtx(v, a) => b(a).with_ctx(Val::from_v(v)).boxed(),
-        G::IwCtx(a, c) => b(a).ignore_with_ctx(b(c)).boxed(),
-        G::TwCtx(a, c) => b(a).then_with_ctx(b(c)).map(|(x, y)| Val::pair(x, y)).boxed(),
+        G::WithCtx(v, a) => b(a).with_ctx(Val::from_v(v)).bx(),
+        G::IwCtx(a, c) => b(a).ignore_with_ctx(b(c)).bx(),
+        G::TwCtx(a, c) => b(a).then_with_ctx(b(c)).map(|(x, y)| Val::pair(x, y)).bx(),
         G::MapCtx(f, a) => {
             let f = f.clone();
-            map_ctx::<_, _, _, Ex<E>, Ex<E>, _>(move |c: &Val| eval_ctxfn(&f, c), b(a)).boxed()
+            map_ctx::<_, _, _, Ex<E>, Ex<E>, _>(move |c: &Val| eval_ctxfn(&f, c), b(a)).bx()
         }
         G::CfgJust(c, ts) => {
             let c = c.clone();
@@ -491,17 +571,17 @@ pub fn build<'src, I: HInput<'src>, E: HErr<'src, I>>(g: &G, cx: &Cx<'src, I, E>
                     _ => cfg,
                 })
                 .map(|cs: Vec<char>| Val::Toks(cs.into_iter().map(|c| c as u32).collect()))
-                .boxed()
+                .bx()
         }
-        G::WithState(a) => b(a).with_state(Insp::default()).boxed(),
-        G::Memo(_, a) => b(a).memoized().boxed(),
+        G::WithState(a) => b(a).with_state(Insp::default()).bx(),
+        G::Memo(_, a) => b(a).memoized().bx(),
         // a `Memoized` whose first field is a `Memoized`: both have the same address
-        G::MemoNest(_, a) => b(a).memoized().memoized().boxed(),
+        G::MemoNest(_, a) => b(a).memoized().memoized().bx(),
         // two distinct zero-sized memoized parsers side by side
-        G::MemoZst(_) => any().ignored().memoized().or(end().memoized()).to(Val::Unit).boxed(),
-        G::Lazy(a) => b(a).lazy().boxed(),
+        G::MemoZst(_) => any().ignored().memoized().or(end().memoized()).to(Val::Unit).bx(),
+        G::Lazy(a) => b(a).lazy().bx(),
         G::Call(k) => cx.defs[*k].clone(),
-        G::Boxed(a) => b(a).boxed(),
+        G::Boxed(a) => b(a).bx(),
     }
 }
 
@@ -509,7 +589,7 @@ pub fn build<'src, I: HInput<'src>, E: HErr<'src, I>>(g: &G, cx: &Cx<'src, I, E>
 fn build_plain<'src, I: HInput<'src>, E: HErr<'src, I>>(it: &It, cx: &Cx<'src, I, E>) -> BP<'src, I, E> {
     match it {
         It::Rep(..) | It::Sep(..) | It::CfgRep(..) | It::TryCfgRep(..) => with_iter(it, cx, false, PlainK),
-        It::IntoIter(a) => build(a, cx).map(|v| v.elems()).into_iter().to(Val::Unit).boxed(),
+        It::IntoIter(a) => build(a, cx).map(|v| v.elems()).into_iter().to(Val::Unit).bx(),
         other => panic!("harness: ill-typed plain iterator {other:?}"),
     }
 }
@@ -560,18 +640,20 @@ fn with_atom<'src, I: HInput<'src>, E: HErr<'src, I>, K: IterK<'src, I, E>>(
     match it {
         It::Enum(_) | It::ThenIt(..) => panic!("harness: nested then/enumerate iterator unsupported"),
         It::Rep(a, lo, hi) => {
-            let p = build(a, cx).repeated().at_least(*lo);
+            // `exactly(n)` for odd n, `at_least(n).at_most(n)` for even n: both spellings of equal bounds are exercised
             let p = match hi {
-                Some(h) => p.at_most(*h),
-                None => p,
+                Some(h) if *h == *lo && *lo % 2 == 1 => build(a, cx).repeated().exactly(*lo),
+                Some(h) => build(a, cx).repeated().at_least(*lo).at_most(*h),
+                None => build(a, cx).repeated().at_least(*lo),
             };
             k.call(p, en)
         }
         It::Sep(a, s, lo, hi, lead, trail) => {
-            let mut p = build(a, cx).separated_by(build(s, cx)).at_least(*lo);
-            if let Some(h) = hi {
-                p = p.at_most(*h);
-            }
+            let mut p = match hi {
+                Some(h) if *h == *lo && *lo % 2 == 1 => build(a, cx).separated_by(build(s, cx)).exactly(*lo),
+                Some(h) => build(a, cx).separated_by(build(s, cx)).at_least(*lo).at_most(*h),
+                None => build(a, cx).separated_by(build(s, cx)).at_least(*lo),
+            };
             if *lead {
                 p = p.allow_leading();
             }
@@ -648,6 +730,24 @@ where
     }
 }
 
+/// the context providers used as iterable parsers: `a.ignore_with_ctx(it)` / `a.then_with_ctx(it)` collected into a Vec
+struct CtxIterK<'src, I: HInput<'src>, E: HErr<'src, I>> {
+    a: BP<'src, I, E>,
+    then: bool,
+}
+impl<'src, I: HInput<'src>, E: HErr<'src, I>> IterK<'src, I, E> for CtxIterK<'src, I, E> {
+    fn call<O: 'src, P>(self, p: P, _en: bool) -> BP<'src, I, E>
+    where
+        P: IterParser<'src, I, Val, Ex<E>> + Parser<'src, I, O, Ex<E>> + Clone + 'src,
+    {
+        if self.then {
+            self.a.then_with_ctx(p).collect::<Vec<Val>>().map(Val::list).bx()
+        } else {
+            self.a.ignore_with_ctx(p).collect::<Vec<Val>>().map(Val::list).bx()
+        }
+    }
+}
+
 /// `collect` into the four container kinds
 struct CollectK {
     k: Coll,
@@ -665,10 +765,10 @@ impl CollectK {
                 let k = self.k.clone();
                 p.collect::<Vec<T>>()
                     .map(move |vs| collect_out(&k, vs.into_iter().map(IntoVal::into_val).collect()))
-                    .boxed()
+                    .bx()
             }
-            Coll::Count => p.count().map(|n| Val::Nat(n as u64)).boxed(),
-            Coll::Unit => p.collect::<()>().to(Val::Unit).boxed(),
+            Coll::Count => p.count().map(|n| Val::Nat(n as u64)).bx(),
+            Coll::Unit => p.collect::<()>().to(Val::Unit).bx(),
         }
     }
 }
@@ -705,7 +805,7 @@ impl CollectXK {
         {
             p.collect_exactly::<[T; N]>()
                 .map(|vs: [T; N]| Val::list(vs.into_iter().map(IntoVal::into_val).collect::<Vec<_>>()))
-                .boxed()
+                .bx()
         }
         match self.n {
             0 => arr::<I, E, T, P, 0>(p),
@@ -743,9 +843,9 @@ impl<'src, I: HInput<'src>, E: HErr<'src, I>> IterK<'src, I, E> for FoldlK<'src,
         if en {
             self.a
                 .foldl(p.enumerate(), move |acc, x: (usize, Val)| eval_fold_l(&f, acc, x.into_val()))
-                .boxed()
+                .bx()
         } else {
-            self.a.foldl(p, move |acc, x: Val| eval_fold_l(&f, acc, x)).boxed()
+            self.a.foldl(p, move |acc, x: Val| eval_fold_l(&f, acc, x)).bx()
         }
     }
 }
@@ -763,9 +863,9 @@ impl<'src, I: HInput<'src>, E: HErr<'src, I>> IterK<'src, I, E> for FoldrK<'src,
         if en {
             p.enumerate()
                 .foldr(self.b, move |x: (usize, Val), acc| eval_fold_r(&f, x.into_val(), acc))
-                .boxed()
+                .bx()
         } else {
-            p.foldr(self.b, move |x: Val, acc| eval_fold_r(&f, x, acc)).boxed()
+            p.foldr(self.b, move |x: Val, acc| eval_fold_r(&f, x, acc)).bx()
         }
     }
 }
@@ -783,11 +883,11 @@ impl<'src, I: HInput<'src>, E: HErr<'src, I>> IterK<'src, I, E> for FoldlWK<'src
                 .foldl_with(p.enumerate(), |acc, x: (usize, Val), e| {
                     Val::pair(Val::pair(acc, x.into_val()), Val::span(e.span()))
                 })
-                .boxed()
+                .bx()
         } else {
             self.a
                 .foldl_with(p, |acc, x: Val, e| Val::pair(Val::pair(acc, x), Val::span(e.span())))
-                .boxed()
+                .bx()
         }
     }
 }
@@ -805,10 +905,10 @@ impl<'src, I: HInput<'src>, E: HErr<'src, I>> IterK<'src, I, E> for FoldrWK<'src
                 .foldr_with(self.b, |x: (usize, Val), acc, e| {
                     Val::pair(Val::pair(x.into_val(), acc), Val::span(e.span()))
                 })
-                .boxed()
+                .bx()
         } else {
             p.foldr_with(self.b, |x: Val, acc, e| Val::pair(Val::pair(x, acc), Val::span(e.span())))
-                .boxed()
+                .bx()
         }
     }
 }
@@ -819,6 +919,6 @@ impl<'src, I: HInput<'src>, E: HErr<'src, I>> IterK<'src, I, E> for PlainK {
     where
         P: IterParser<'src, I, Val, Ex<E>> + Parser<'src, I, O, Ex<E>> + Clone + 'src,
     {
-        Parser::map(p, |_: O| Val::Unit).boxed()
+        Parser::map(p, |_: O| Val::Unit).bx()
     }
 }
